@@ -121,10 +121,24 @@ func c14Case(r *fw.Rand, index string) fw.Case {
 			// id), is written again, and the index is compacted
 			m := pm()
 			h := []string{"a", "b", "c"}[r.Intn(3)]
+			// (with the log turned into an index file between the steps, the tombstone and the
+			// re-creation meet in a level compaction)
+			between := r.Intn(2) == 0
+			ic := func() {
+				if between {
+					ops = append(ops, "idxcompact")
+				}
+			}
 			ops = append(ops, fmt.Sprintf("w %s|host=%s|%d|n=i%d", m, h, c10Base+int64(r.Intn(20))*1000, r.Intn(100)))
+			ic()
 			ops = append(ops, fmt.Sprintf("del %s %s %d %d", m, []string{"-", "host=" + h}[r.Intn(2)], c10Base, c10Base+40000))
+			ic()
 			ops = append(ops, fmt.Sprintf("w %s|host=%s|%d|n=i%d", m, h, c10Base+int64(r.Intn(20))*1000, r.Intn(100)))
-			if r.Intn(3) > 0 {
+			ic()
+			if between {
+				ops = append(ops, fmt.Sprintf("w %s|host=%s,region=x|%d|n=i%d", m, []string{"a", "b", "c"}[r.Intn(3)], c10Base+int64(r.Intn(20))*1000, r.Intn(100)))
+			}
+			if between || r.Intn(3) > 0 {
 				ops = append(ops, "idxcompact")
 			}
 			ops = append(ops, "seriesby "+m+" host eq "+h, "seriesby "+m+" host in "+h+",zz", "seriesby "+m+" host nin "+h+",zz")
